@@ -132,7 +132,7 @@ macro_rules
   (try simp only [upd_apply, updN_apply, if_true, if_false, ne_eq, not_false_eq_true, reduceCtorEq, reduceIte]) <;>
   simp only [inW, inT, inBody, inRecvBody, inPW, isEnd, isErrOf, Ag.idx, Ag.isS, allGone_iff, upd_apply, updN_apply,
     List.nil_append, List.append_nil, Option.toList_some, Option.toList_none, List.mem_append, List.mem_singleton,
-    List.mem_cons, quiet, decide_eq_true_eq, Bool.or_eq_false_iff, Bool.or_eq_true] at * <;> grind))
+    List.mem_cons, List.append_eq_nil_iff, and_false, false_and, quiet, decide_eq_true_eq, Bool.or_eq_false_iff, Bool.or_eq_true] at * <;> grind))
 
 syntax "os_close2 " term:max : tactic
 macro_rules
